@@ -203,41 +203,41 @@ theorem decodeUtf16_utf16Units (t : Str) : decodeUtf16 (utf16Units t) = t := by
 
 /-! ### UTF-8 -/
 
-theorem shl6 (a : Nat) : a <<< 6 = a * 64 := by rw [Nat.shiftLeft_eq]
-theorem shl12 (a : Nat) : a <<< 12 = a * 4096 := by rw [Nat.shiftLeft_eq]
-theorem shl18 (a : Nat) : a <<< 18 = a * 262144 := by rw [Nat.shiftLeft_eq]
-theorem and31 (x : Nat) : x &&& 0x1F = x % 32 := Nat.and_two_pow_sub_one_eq_mod x 5
-theorem and63 (x : Nat) : x &&& 0x3F = x % 64 := Nat.and_two_pow_sub_one_eq_mod x 6
-theorem and15 (x : Nat) : x &&& 0x0F = x % 16 := Nat.and_two_pow_sub_one_eq_mod x 4
-theorem and7 (x : Nat) : x &&& 0x07 = x % 8 := Nat.and_two_pow_sub_one_eq_mod x 3
+theorem u8_shl6 (a : Nat) : a <<< 6 = a * 64 := by rw [Nat.shiftLeft_eq]
+theorem u8_shl12 (a : Nat) : a <<< 12 = a * 4096 := by rw [Nat.shiftLeft_eq]
+theorem u8_shl18 (a : Nat) : a <<< 18 = a * 262144 := by rw [Nat.shiftLeft_eq]
+theorem u8_and31 (x : Nat) : x &&& 0x1F = x % 32 := Nat.and_two_pow_sub_one_eq_mod x 5
+theorem u8_and63 (x : Nat) : x &&& 0x3F = x % 64 := Nat.and_two_pow_sub_one_eq_mod x 6
+theorem u8_and15 (x : Nat) : x &&& 0x0F = x % 16 := Nat.and_two_pow_sub_one_eq_mod x 4
+theorem u8_and7 (x : Nat) : x &&& 0x07 = x % 8 := Nat.and_two_pow_sub_one_eq_mod x 3
 
-theorem or2 (x y : Nat) (hy : y < 64) : (x <<< 6 ||| y) = x * 64 + y := by
-  rw [← Nat.shiftLeft_add_eq_or_of_lt (by simpa using hy), shl6]
+theorem u8_or2 (x y : Nat) (hy : y < 64) : (x <<< 6 ||| y) = x * 64 + y := by
+  rw [← Nat.shiftLeft_add_eq_or_of_lt (by simpa using hy), u8_shl6]
 
-theorem or3 (x y z : Nat) (hy : y < 64) (hz : z < 64) :
+theorem u8_or3 (x y z : Nat) (hy : y < 64) (hz : z < 64) :
     (x <<< 12 ||| y <<< 6 ||| z) = x * 4096 + y * 64 + z := by
   have h1 : x <<< 12 ||| y <<< 6 = (x * 64 + y) <<< 6 := by
-    rw [← Nat.shiftLeft_add_eq_or_of_lt (by rw [shl6]; show y * 64 < 4096; omega), shl12, shl6, shl6]; omega
-  rw [h1, or2 _ _ hz]; omega
+    rw [← Nat.shiftLeft_add_eq_or_of_lt (by rw [u8_shl6]; show y * 64 < 4096; omega), u8_shl12, u8_shl6, u8_shl6]; omega
+  rw [h1, u8_or2 _ _ hz]; omega
 
-theorem or4 (w x y z : Nat) (hx : x < 64) (hy : y < 64) (hz : z < 64) :
+theorem u8_or4 (w x y z : Nat) (hx : x < 64) (hy : y < 64) (hz : z < 64) :
     (w <<< 18 ||| x <<< 12 ||| y <<< 6 ||| z) = w * 262144 + x * 4096 + y * 64 + z := by
   have h1 : w <<< 18 ||| x <<< 12 = (w * 64 + x) <<< 12 := by
-    rw [← Nat.shiftLeft_add_eq_or_of_lt (by rw [shl12]; show x * 4096 < 262144; omega), shl18, shl12, shl12]; omega
-  rw [h1, or3 _ _ _ hy hz]; omega
+    rw [← Nat.shiftLeft_add_eq_or_of_lt (by rw [u8_shl12]; show x * 4096 < 262144; omega), u8_shl18, u8_shl12, u8_shl12]; omega
+  rw [h1, u8_or3 _ _ _ hy hz]; omega
 
-theorem enc1 (c : Char) (h : c.toNat ≤ 127) : String.utf8EncodeChar c = [UInt8.ofNat c.toNat] := by
+theorem u8_enc1 (c : Char) (h : c.toNat ≤ 127) : String.utf8EncodeChar c = [UInt8.ofNat c.toNat] := by
   have hv : c.val.toNat = c.toNat := rfl
   simp only [String.utf8EncodeChar, hv]
   rw [if_pos h]
 
-theorem enc2 (c : Char) (h1 : 127 < c.toNat) (h2 : c.toNat ≤ 2047) :
+theorem u8_enc2 (c : Char) (h1 : 127 < c.toNat) (h2 : c.toNat ≤ 2047) :
     String.utf8EncodeChar c = [UInt8.ofNat (c.toNat / 64 % 32 + 192), UInt8.ofNat (c.toNat % 64 + 128)] := by
   have hv : c.val.toNat = c.toNat := rfl
   simp only [String.utf8EncodeChar, hv]
   rw [if_neg (by omega), if_pos h2]
 
-theorem enc3 (c : Char) (h1 : 2047 < c.toNat) (h2 : c.toNat ≤ 65535) :
+theorem u8_enc3 (c : Char) (h1 : 2047 < c.toNat) (h2 : c.toNat ≤ 65535) :
     String.utf8EncodeChar c =
       [UInt8.ofNat (c.toNat / 4096 % 16 + 224), UInt8.ofNat (c.toNat / 64 % 64 + 128),
         UInt8.ofNat (c.toNat % 64 + 128)] := by
@@ -245,7 +245,7 @@ theorem enc3 (c : Char) (h1 : 2047 < c.toNat) (h2 : c.toNat ≤ 65535) :
   simp only [String.utf8EncodeChar, hv]
   rw [if_neg (by omega), if_neg (by omega), if_pos h2]
 
-theorem enc4 (c : Char) (h1 : 65535 < c.toNat) :
+theorem u8_enc4 (c : Char) (h1 : 65535 < c.toNat) :
     String.utf8EncodeChar c =
       [UInt8.ofNat (c.toNat / 262144 % 8 + 240), UInt8.ofNat (c.toNat / 4096 % 64 + 128),
         UInt8.ofNat (c.toNat / 64 % 64 + 128), UInt8.ofNat (c.toNat % 64 + 128)] := by
@@ -253,21 +253,21 @@ theorem enc4 (c : Char) (h1 : 65535 < c.toNat) :
   simp only [String.utf8EncodeChar, hv]
   rw [if_neg (by omega), if_neg (by omega), if_neg (by omega)]
 
-theorem ofNat_eq_char (c : Char) (n : Nat) (h : n = c.toNat) : Char.ofNat n = c := by
+theorem u8_ofNat_eq_char (c : Char) (n : Nat) (h : n = c.toNat) : Char.ofNat n = c := by
   subst h; exact Char.ofNat_toNat c
 
-theorem step1 (c : Char) (fuel : Nat) (rest : List UInt8) (h : c.toNat ≤ 127) :
+theorem u8_step1 (c : Char) (fuel : Nat) (rest : List UInt8) (h : c.toNat ≤ 127) :
     utf8LossyFuel (fuel + 1) (String.utf8EncodeChar c ++ rest) = c :: utf8LossyFuel fuel rest := by
-  rw [enc1 c h]
+  rw [u8_enc1 c h]
   have f1 : UInt8.ofNat c.toNat < 0x80 := by
     simp only [UInt8.lt_iff_toNat_lt, UInt8.toNat_ofNat', UInt8.toNat_ofNat]; omega
   have f2 : Char.ofNat (UInt8.ofNat c.toNat).toNat = c :=
-    ofNat_eq_char c _ (by rw [UInt8.toNat_ofNat']; omega)
+    u8_ofNat_eq_char c _ (by rw [UInt8.toNat_ofNat']; omega)
   simp only [List.cons_append, List.nil_append, utf8LossyFuel, f1, f2, if_true]
 
-theorem step2 (c : Char) (fuel : Nat) (rest : List UInt8) (h1 : 127 < c.toNat) (h2 : c.toNat ≤ 2047) :
+theorem u8_step2 (c : Char) (fuel : Nat) (rest : List UInt8) (h1 : 127 < c.toNat) (h2 : c.toNat ≤ 2047) :
     utf8LossyFuel (fuel + 1) (String.utf8EncodeChar c ++ rest) = c :: utf8LossyFuel fuel rest := by
-  rw [enc2 c h1 h2]
+  rw [u8_enc2 c h1 h2]
   have f1 : ¬ (UInt8.ofNat (c.toNat / 64 % 32 + 192) < 0x80) := by
     simp only [UInt8.lt_iff_toNat_lt, UInt8.toNat_ofNat', UInt8.toNat_ofNat]; omega
   have f2 : (0xC2 ≤ UInt8.ofNat (c.toNat / 64 % 32 + 192) && UInt8.ofNat (c.toNat / 64 % 32 + 192) ≤ 0xDF) = true := by
@@ -275,14 +275,14 @@ theorem step2 (c : Char) (fuel : Nat) (rest : List UInt8) (h1 : 127 < c.toNat) (
   have f3 : isCont (UInt8.ofNat (c.toNat % 64 + 128)) = true := by
     simp only [isCont, Bool.and_eq_true, decide_eq_true_eq, UInt8.le_iff_toNat_le, UInt8.toNat_ofNat', UInt8.toNat_ofNat]; omega
   have f4 : cp2 (UInt8.ofNat (c.toNat / 64 % 32 + 192)) (UInt8.ofNat (c.toNat % 64 + 128)) = c := by
-    simp only [cp2, UInt8.toNat_ofNat', and31, and63]
-    rw [or2 _ _ (by omega)]
-    exact ofNat_eq_char c _ (by omega)
+    simp only [cp2, UInt8.toNat_ofNat', u8_and31, u8_and63]
+    rw [u8_or2 _ _ (by omega)]
+    exact u8_ofNat_eq_char c _ (by omega)
   simp only [List.cons_append, List.nil_append, utf8LossyFuel, f1, f2, f3, f4, if_true, if_false]
 
-theorem step3 (c : Char) (fuel : Nat) (rest : List UInt8) (h1 : 2047 < c.toNat) (h2 : c.toNat ≤ 65535) :
+theorem u8_step3 (c : Char) (fuel : Nat) (rest : List UInt8) (h1 : 2047 < c.toNat) (h2 : c.toNat ≤ 65535) :
     utf8LossyFuel (fuel + 1) (String.utf8EncodeChar c ++ rest) = c :: utf8LossyFuel fuel rest := by
-  rw [enc3 c h1 h2]
+  rw [u8_enc3 c h1 h2]
   have hv := char_valid c
   have f1 : ¬ (UInt8.ofNat (c.toNat / 4096 % 16 + 224) < 0x80) := by
     simp only [UInt8.lt_iff_toNat_lt, UInt8.toNat_ofNat', UInt8.toNat_ofNat]; omega
@@ -299,15 +299,15 @@ theorem step3 (c : Char) (fuel : Nat) (rest : List UInt8) (h1 : 2047 < c.toNat) 
     simp only [isCont, Bool.and_eq_true, decide_eq_true_eq, UInt8.le_iff_toNat_le, UInt8.toNat_ofNat', UInt8.toNat_ofNat]; omega
   have f6 : cp3 (UInt8.ofNat (c.toNat / 4096 % 16 + 224)) (UInt8.ofNat (c.toNat / 64 % 64 + 128))
       (UInt8.ofNat (c.toNat % 64 + 128)) = c := by
-    simp only [cp3, UInt8.toNat_ofNat', and15, and63]
-    rw [or3 _ _ _ (by omega) (by omega)]
-    exact ofNat_eq_char c _ (by omega)
+    simp only [cp3, UInt8.toNat_ofNat', u8_and15, u8_and63]
+    rw [u8_or3 _ _ _ (by omega) (by omega)]
+    exact u8_ofNat_eq_char c _ (by omega)
   simp only [List.cons_append, List.nil_append, utf8LossyFuel, f1, f2, f3, f4, f5, f6, if_true, if_false,
     Bool.not_true, Bool.false_eq_true]
 
-theorem step4 (c : Char) (fuel : Nat) (rest : List UInt8) (h1 : 65535 < c.toNat) :
+theorem u8_step4 (c : Char) (fuel : Nat) (rest : List UInt8) (h1 : 65535 < c.toNat) :
     utf8LossyFuel (fuel + 1) (String.utf8EncodeChar c ++ rest) = c :: utf8LossyFuel fuel rest := by
-  rw [enc4 c h1]
+  rw [u8_enc4 c h1]
   have hv := char_valid c
   have f1 : ¬ (UInt8.ofNat (c.toNat / 262144 % 8 + 240) < 0x80) := by
     simp only [UInt8.lt_iff_toNat_lt, UInt8.toNat_ofNat', UInt8.toNat_ofNat]; omega
@@ -328,9 +328,9 @@ theorem step4 (c : Char) (fuel : Nat) (rest : List UInt8) (h1 : 65535 < c.toNat)
     simp only [isCont, Bool.and_eq_true, decide_eq_true_eq, UInt8.le_iff_toNat_le, UInt8.toNat_ofNat', UInt8.toNat_ofNat]; omega
   have f6 : cp4 (UInt8.ofNat (c.toNat / 262144 % 8 + 240)) (UInt8.ofNat (c.toNat / 4096 % 64 + 128))
       (UInt8.ofNat (c.toNat / 64 % 64 + 128)) (UInt8.ofNat (c.toNat % 64 + 128)) = c := by
-    simp only [cp4, UInt8.toNat_ofNat', and7, and63]
-    rw [or4 _ _ _ _ (by omega) (by omega) (by omega)]
-    exact ofNat_eq_char c _ (by omega)
+    simp only [cp4, UInt8.toNat_ofNat', u8_and7, u8_and63]
+    rw [u8_or4 _ _ _ _ (by omega) (by omega) (by omega)]
+    exact u8_ofNat_eq_char c _ (by omega)
   simp only [List.cons_append, List.nil_append, utf8LossyFuel, f1, f2, f3, f3', f4, f5, f5', f6, if_true, if_false,
     Bool.not_true, Bool.false_eq_true]
 
@@ -338,21 +338,21 @@ theorem step4 (c : Char) (fuel : Nat) (rest : List UInt8) (h1 : 65535 < c.toNat)
 theorem utf8LossyFuel_char (c : Char) (fuel : Nat) (rest : List UInt8) :
     utf8LossyFuel (fuel + 1) (String.utf8EncodeChar c ++ rest) = c :: utf8LossyFuel fuel rest := by
   by_cases a : c.toNat ≤ 127
-  · exact step1 c fuel rest a
+  · exact u8_step1 c fuel rest a
   · by_cases b : c.toNat ≤ 2047
-    · exact step2 c fuel rest (by omega) b
+    · exact u8_step2 c fuel rest (by omega) b
     · by_cases d : c.toNat ≤ 65535
-      · exact step3 c fuel rest (by omega) d
-      · exact step4 c fuel rest (by omega)
+      · exact u8_step3 c fuel rest (by omega) d
+      · exact u8_step4 c fuel rest (by omega)
 
 theorem utf8EncodeChar_length_pos (c : Char) : 0 < (String.utf8EncodeChar c).length := by
   by_cases a : c.toNat ≤ 127
-  · rw [enc1 c a]; simp
+  · rw [u8_enc1 c a]; simp
   · by_cases b : c.toNat ≤ 2047
-    · rw [enc2 c (by omega) b]; simp
+    · rw [u8_enc2 c (by omega) b]; simp
     · by_cases d : c.toNat ≤ 65535
-      · rw [enc3 c (by omega) d]; simp
-      · rw [enc4 c (by omega)]; simp
+      · rw [u8_enc3 c (by omega) d]; simp
+      · rw [u8_enc4 c (by omega)]; simp
 
 theorem utf8LossyFuel_utf8Encode (s : Str) (fuel : Nat) (h : (utf8Encode s).length ≤ fuel) :
     utf8LossyFuel fuel (utf8Encode s) = s := by
@@ -374,18 +374,18 @@ theorem utf8Lossy_utf8Encode (s : Str) : utf8Lossy (utf8Encode s) = s :=
 theorem utf8EncodeChar_noLF (c : Char) (h : c.toNat ≠ 10) : ∀ b ∈ String.utf8EncodeChar c, isLFb b = false := by
   intro b hb
   by_cases a : c.toNat ≤ 127
-  · rw [enc1 c a] at hb
+  · rw [u8_enc1 c a] at hb
     simp only [List.mem_cons, List.not_mem_nil, or_false] at hb; subst hb
     simp only [isLFb, ofNat_beq_lf, beq_eq_false_iff_ne, ne_eq]; omega
   · by_cases b2 : c.toNat ≤ 2047
-    · rw [enc2 c (by omega) b2] at hb
+    · rw [u8_enc2 c (by omega) b2] at hb
       simp only [List.mem_cons, List.not_mem_nil, or_false] at hb
       rcases hb with rfl | rfl <;> (simp only [isLFb, ofNat_beq_lf, beq_eq_false_iff_ne, ne_eq]; omega)
     · by_cases d : c.toNat ≤ 65535
-      · rw [enc3 c (by omega) d] at hb
+      · rw [u8_enc3 c (by omega) d] at hb
         simp only [List.mem_cons, List.not_mem_nil, or_false] at hb
         rcases hb with rfl | rfl | rfl <;> (simp only [isLFb, ofNat_beq_lf, beq_eq_false_iff_ne, ne_eq]; omega)
-      · rw [enc4 c (by omega)] at hb
+      · rw [u8_enc4 c (by omega)] at hb
         simp only [List.mem_cons, List.not_mem_nil, or_false] at hb
         rcases hb with rfl | rfl | rfl | rfl <;> (simp only [isLFb, ofNat_beq_lf, beq_eq_false_iff_ne, ne_eq]; omega)
 
@@ -398,7 +398,7 @@ theorem rawLines_utf8Encode (t : Str) : rawLines (utf8Encode t) = (textLines t).
     simp only [List.flatMap_cons, linesBy, isLFc, char_eq_lf]
     by_cases h10 : c.toNat = 10
     · have : String.utf8EncodeChar c = [0x0A] := by
-        rw [enc1 c (by omega), h10]; rfl
+        rw [u8_enc1 c (by omega), h10]; rfl
       simp [this, h10, linesBy, isLFb, ih]
     · have h10' : (c.toNat == 10) = false := by simpa using h10
       simp only [h10', Bool.false_eq_true, if_false, map_consHead]
